@@ -43,11 +43,12 @@ theorem mapCommand_route (c : Cache) (tag addr cmd sid t a m : Str) :
     (routes are only ever created by `storeClientSession` for the handshake's own tag, the server it
     connected to, and the commands the server declared valid) a handshake with a different tag, or
     none, never rides it. -/
-theorem resume_only_routed (c : Cache) (now : Nat) (tag addr cmd : Str) (ans : ServerAnswer)
+theorem resume_only_routed (c : Cache) (now : Nat) (tag addr cmd : Str) (ans : ServerAnswer) (ra : Bool)
     (c' : Cache) (sid : Str) (key : Option Nat) (user : String) (auth : Bool)
-    (h : clientTry c now tag addr cmd ans = (c', .resumed sid key user auth)) :
+    (h : clientTry c now tag addr cmd ans ra = (c', .resumed sid key user auth)) :
     ∃ sid' e, c.cmdMap.lookup (cmdKey tag addr cmd) = some sid' ∧ c.get sid' = some e ∧
-      e.expired now = false ∧ e.key.isSome = true ∧ sid = e.id ∧ key = e.key ∧ ans = .authorized := by
+      e.expired now = false ∧ e.key.isSome = true ∧ sid = e.id ∧ key = e.key ∧ ans = .authorized ∧
+      auth = e.authenticated ∧ (ra = true → e.authenticated = true) := by
   unfold clientTry at h
   by_cases ha : addr = []
   · simp [ha] at h
@@ -57,17 +58,19 @@ theorem resume_only_routed (c : Cache) (now : Nat) (tag addr cmd : Str) (ans : S
     | some e =>
       simp only [hl] at h
       obtain ⟨sid', hs, hg, hx⟩ := lookupByCommand_id c now tag addr cmd e hl
-      cases hkk : (e.key.isSome && (e.crypto == "AES" || e.crypto == "AESGCM")) with
+      cases hkk : (e.key.isSome && (e.crypto == "AES" || e.crypto == "AESGCM") && (!ra || e.authenticated)) with
       | false => simp [hkk] at h
       | true =>
         simp only [hkk, Bool.not_true, Bool.false_eq_true, if_false] at h
         have hkey : e.key.isSome = true := by
-          simp only [Bool.and_eq_true] at hkk; exact hkk.1
+          simp only [Bool.and_eq_true] at hkk; exact hkk.1.1
+        have hra : ra = true → e.authenticated = true := by
+          intro hr; simp only [Bool.and_eq_true, hr, Bool.not_true, Bool.false_or] at hkk; exact hkk.2
         cases ans with
         | authorized =>
           simp only [Prod.mk.injEq, ClientStep.resumed.injEq] at h
-          obtain ⟨_, hid, hk2, _, _⟩ := h
-          exact ⟨sid', e, hs, hg, hx, hkey, hid.symm, hk2.symm, rfl⟩
+          obtain ⟨_, hid, hk2, _, ha2⟩ := h
+          exact ⟨sid', e, hs, hg, hx, hkey, hid.symm, hk2.symm, rfl, ha2.symm, hra⟩
         | sidNotFound => simp at h
         | broken => simp at h
         | other rc => simp at h
@@ -93,9 +96,9 @@ theorem wf_invalidate (c : Cache) (sid : Str) (h : WF c) : WF (c.invalidate sid)
     exchange breaks, the session is gone from the cache, no command route leads to it any more,
     and the cache stays well-formed (so the next handshake for that triple is a full one:
     `lookupByCommand` finds no session behind any route). -/
-theorem drop_on_failure (c : Cache) (hwf : WF c) (now : Nat) (tag addr cmd : Str) (ans : ServerAnswer)
+theorem drop_on_failure (c : Cache) (hwf : WF c) (now : Nat) (tag addr cmd : Str) (ans : ServerAnswer) (ra : Bool)
     (c' : Cache) (sid : Str) (hans : ans = .sidNotFound ∨ ans = .broken)
-    (h : clientTry c now tag addr cmd ans = (c', .resumeFailed sid)) :
+    (h : clientTry c now tag addr cmd ans ra = (c', .resumeFailed sid)) :
     c'.get sid = none ∧ (∀ p ∈ c'.cmdMap, p.2 ≠ sid) ∧ WF c' := by
   unfold clientTry at h
   by_cases ha : addr = []
@@ -107,7 +110,7 @@ theorem drop_on_failure (c : Cache) (hwf : WF c) (now : Nat) (tag addr cmd : Str
       simp only [hl] at h
       obtain ⟨sid', hs, hg, hx⟩ := lookupByCommand_id c now tag addr cmd e hl
       have hid : e.id = sid' := hwf sid' e hg
-      cases hkk : (e.key.isSome && (e.crypto == "AES" || e.crypto == "AESGCM")) with
+      cases hkk : (e.key.isSome && (e.crypto == "AES" || e.crypto == "AESGCM") && (!ra || e.authenticated)) with
       | false => simp [hkk] at h
       | true =>
         simp only [hkk, Bool.not_true, Bool.false_eq_true, if_false] at h
@@ -120,9 +123,9 @@ theorem drop_on_failure (c : Cache) (hwf : WF c) (now : Nat) (tag addr cmd : Str
                  wf_invalidate c e.id hwf⟩)
 
 /-- after the drop the same triple finds nothing to resume: the next handshake is full -/
-theorem next_is_full (c : Cache) (now : Nat) (tag addr cmd sid : Str) (ans : ServerAnswer)
+theorem next_is_full (c : Cache) (now : Nat) (tag addr cmd sid : Str) (ans : ServerAnswer) (ra : Bool)
     (hnone : c.get sid = none) (hroute : c.cmdMap.lookup (cmdKey tag addr cmd) = some sid) :
-    (clientTry c now tag addr cmd ans).2 = .full := by
+    (clientTry c now tag addr cmd ans ra).2 = .full := by
   unfold clientTry
   by_cases ha : addr = []
   · simp [ha]
@@ -162,8 +165,8 @@ example : (clientTry c1 9000 "A".toList "srv".toList "60007".toList .authorized)
     tag, server and command the connection is for) never adds a binding to the command map — every
     (key ↦ session) pair present afterwards was present before. So no later ordinary handshake can
     ride a session through a route such a connection left behind. -/
-theorem explicit_id_plants_no_route (c : Cache) (now : Nat) (sid : Str) (answer : ServerAnswer) (b : Str × Str) :
-    b ∈ (clientById c now sid answer).1.cmdMap → b ∈ c.cmdMap := by
+theorem explicit_id_plants_no_route (c : Cache) (now : Nat) (sid : Str) (answer : ServerAnswer) (ra : Bool) (b : Str × Str) :
+    b ∈ (clientById c now sid answer ra).1.cmdMap → b ∈ c.cmdMap := by
   unfold clientById Cache.lookupNonExpired
   cases hg : c.get sid with
   | none => simp [hg]
@@ -172,6 +175,9 @@ theorem explicit_id_plants_no_route (c : Cache) (now : Nat) (sid : Str) (answer 
     by_cases hx : e.expired now = true
     · simp [hx]
     · simp only [hx, Bool.false_eq_true, if_false]
+      by_cases hra : (ra && !e.authenticated) = true
+      · rw [if_pos hra]; simp
+      rw [if_neg hra]
       cases answer with
       | authorized => simp [Cache.store]
       | sidNotFound =>
